@@ -477,6 +477,8 @@ run_forked(const Cmd &cmd, FILE *out)
 	close(ep[0]);
 	int status = 0;
 	waitpid(pid, &status, 0);
+	if (getenv("NNGSIM_STDERR") != NULL && !err.empty())
+		fwrite(err.data(), 1, err.size(), stderr);
 	double wall_ms = (wall_now() - t0) * 1000.0;
 	std::string line;
 	size_t      nl = res.find('\n');
